@@ -320,6 +320,10 @@ pub struct G2Prepared {
 impl From<G2> for G2Prepared {
     fn from(g2: G2) -> G2Prepared {
         let mut coeffs: Vec<(Fq2, Fq2, Fq2)> = Vec::new();
+        if g2.is_zero() {
+            // the identity has no line functions: e(P, O) = 1
+            return G2Prepared { coeffs };
+        }
         let mut p = g2;
         let bits = u128::BITS - SM9_LOOP_N.leading_zeros() - 1;
         for i in (0..bits).rev() {
@@ -352,6 +356,10 @@ impl G2Prepared {
     }
     pub fn miller_loop(&self, g1: &G1) -> Fq12 {
         let mut f = Fq12::one();
+        if self.coeffs.is_empty() || g1.is_zero() {
+            // e(P, O) = e(O, Q) = 1, whatever x and y the identity is stored with
+            return f;
+        }
         let t1 = Fq2::new(g1.y, Fq::zero()).mul_by_nonresidue();
         let mut idx = 0;
         let bits = u128::BITS - SM9_LOOP_N.leading_zeros() - 1;
